@@ -1,5 +1,5 @@
 From Coq Require Import ZArith List.
-From PV Require Import Base.U64 C12.C12_Model C12.C12_Mem C12.C12_MemC C12.C12_Iov C12.C12_Deser C12.C12_Walk C12.C12_Flat C12.C12_Proofs C12.C12_Sep C12.C12_Wire C12.C12_RtD C12.C12_RtS C12.C12_Rt C12.C12_RtC C12.C12_RtC2 C12.C12_RtC3 C12.C12_Hx C12.C12_View C12.C12_Hb C12.C12_Hb2 C12.C12_RtI C12.C12_Crc C12.C12_Ord.
+From PV Require Import Base.U64 C12.C12_Model C12.C12_Mem C12.C12_MemC C12.C12_Iov C12.C12_Deser C12.C12_Walk C12.C12_Flat C12.C12_Proofs C12.C12_Sep C12.C12_Wire C12.C12_RtD C12.C12_RtS C12.C12_Rt C12.C12_RtC C12.C12_RtC2 C12.C12_RtC3 C12.C12_Hx C12.C12_View C12.C12_Hb C12.C12_Hb2 C12.C12_RtI C12.C12_Crc C12.C12_Ord C12.C12_Dyn C12.C12_RtSI C12.C12_RtF.
 Theorem deser_in_bounds_no_trap : forall hstep sh m v,
   shape_wf sh -> inv m v ->
   exists t st, deserialize hstep cfg_final sh m v = Ok (t, st) /\ inv (d_mem st) (d_iov st) /\
@@ -243,3 +243,37 @@ Theorem ser_roundtrip_noiov_checked_crc32c_partial : forall sh ms x sst vals wf 
     flat (d_mem st) (i_el (d_iov st)) = Ok nil.
 Proof. exact ser_roundtrip_noiov_checked_crc32c. Qed.
 Print Assumptions ser_roundtrip_noiov_checked_crc32c_partial.
+Theorem ser_roundtrip : forall hstep sh ms x sst vals0 wf0 Fs0 D body0 mr v,
+  (forall h b, (0 <= h < W32)%Z -> (0 <= b < 256)%Z -> (0 <= hstep h b < W32)%Z) ->
+  shape_wf sh -> lay_fs (sh_fields sh) -> (forall b, psep (aranges_fs (sh_fields sh) b)) ->
+  mem_bytes ms -> Forall (fun L => (L <= STRIDE)%Z) (lens ms) ->
+  rd_fs (perm (sh_fields sh)) ms x = Ok (vals0, wf0, Fs0) -> dn_fs (perm (sh_fields sh)) ms x = Ok D ->
+  psep D -> (forall d, In d D -> sep (x, sh_size sh) d) -> (len wf0 < W64)%Z ->
+  load ms x (sh_size sh) = Ok body0 ->
+  (sh_checked sh = true -> (0 <= x)%Z /\ load ms x 4 = Ok (le_enc 4 0) /\
+     (forall r, In r (aranges_fs (perm (sh_fields sh)) x) -> sep r (x, 4%Z)) /\
+     (forall e, In e (removelast (i_el (s_iov sst))) -> sep e (x, 4%Z))) ->
+  serialize hstep cfg_final sh ms x = Ok sst -> s_full sst = false ->
+  inv mr v -> psep (i_el v) -> flat mr (i_el v) = flat (s_mem sst) (i_el (s_iov sst)) ->
+  (i_nb v + 1 + len Fs0 <= i_cap v)%Z ->
+  exists vals ws Fss t st w2 F,
+    rd_fs (sh_fields sh) (s_mem sst) x = Ok (vals, ws, Fss) /\
+    deserialize hstep cfg_final sh mr v = Ok (t, st) /\ t <> 0%Z /\
+    ptr_ok (lens (d_mem st)) t (sh_size sh) /\
+    rd_fs (sh_fields sh) (d_mem st) t = Ok (vals, w2, F) /\
+    flat (d_mem st) (i_el (d_iov st)) = Ok nil.
+Proof. exact ser_roundtrip_all. Qed.
+Print Assumptions ser_roundtrip.
+Theorem ser_roundtrip_serialize_emits_wire : forall hstep sh ms x sst vals0 wf0 Fs0 D body0,
+  sh_checked sh = false -> shape_wf sh -> lay_fs (sh_fields sh) -> (forall b, psep (aranges_fs (sh_fields sh) b)) ->
+  mem_bytes ms ->
+  serialize hstep cfg_final sh ms x = Ok sst -> s_full sst = false ->
+  rd_fs (perm (sh_fields sh)) ms x = Ok (vals0, wf0, Fs0) -> dn_fs (perm (sh_fields sh)) ms x = Ok D ->
+  psep D -> (forall d, In d D -> sep (x, sh_size sh) d) -> (len wf0 < W64)%Z ->
+  load ms x (sh_size sh) = Ok body0 ->
+  lens (s_mem sst) = lens ms /\ mem_bytes (s_mem sst) /\
+  exists vals wf Fs body, rd_fs (perm (sh_fields sh)) (s_mem sst) x = Ok (vals, wf, Fs) /\ vsums vals /\
+    len wf = len wf0 /\ len Fs = len Fs0 /\
+    load (s_mem sst) x (sh_size sh) = Ok body /\ flat (s_mem sst) (i_el (s_iov sst)) = Ok (wf ++ body).
+Proof. exact serialize_wire_iov. Qed.
+Print Assumptions ser_roundtrip_serialize_emits_wire.
